@@ -8,4 +8,9 @@ def pairsATrees : List Shape := (sh1 unOps binOps ++ Shape.uns unOps (sh1 unOps 
 set_option maxRecDepth 100000 in
 theorem pairsA_exact : (pairsATrees.all fun s => devsExact s.eqn) = true := by decide +kernel
 
+set_option maxRecDepth 100000 in
+/-- every text form of every tree of this part round-trips -/
+theorem pairsA_all : (pairsATrees.all fun s => roundTripsEqn s.eqn && roundTripsScript s.eqn && roundTripsFilter s.eqn) = true := by
+  decide +kernel
+
 end OjgVerif.JPText
